@@ -9,66 +9,52 @@ LIB = sorted(os.path.relpath(p, core.REPO) for p in glob.glob(os.path.join(core.
 
 
 def build(tier, only, chk):
+    """scaled queries (guarded hook COVESA_OPEN1722_VERIF_MAX_PDU_SIZE shrinks the talker's transmit buffer, the
+    listener's receive buffer and the wire buffer to just fit n maximal frames) are the work-horse: every length
+    symbolic.  The real 1500-byte buffers are used in the thorough tier (minutes and tens of GB per query)."""
+    import itertools
     jobs = []
-    ns = [1, 2] if tier == 'quick' else [1, 2, 3]
-    for n in ns:
-        for tscf in (0, 1):
-            for udp in (0, 1):
-                for fd in (0, 1):
-                    if n == 1:
-                        variants = [()]
-                    else:
-                        lens = ([3] if not fd else [5]) if tier == 'quick' else \
-                               (list(range(0, 9)) if not fd else [0, 1, 2, 3, 4, 7, 8, 12, 16, 20, 24, 32, 48, 63, 64])
-                        import itertools
-                        variants = list(itertools.product(lens, repeat=n - 1)) if n == 2 else \
-                            [(a, b) for a in lens[::3] for b in lens[1::3]]
-                    for fixed in variants:
-                        name = 'c19.tunnel.%s.%s.%s.n%d%s' % ('tscf' if tscf else 'ntscf', 'udp' if udp else 'raw',
-                                                             'fd' if fd else 'classic', n,
-                                                             ''.join('.len%d' % x for x in fixed))
-                        if only and not any(o in name for o in only.split(',')):
-                            continue
-                        if tier == 'quick' and n == 2 and not (fd and tscf == 0 and udp == 0) and not (not fd and tscf == 1 and udp == 1):
-                            continue          # quick: two frames per packet in one FD and one classic mode
-                        src, extra = L.c19_tunnel(n, tscf, udp, fd, fixed)
-                        us = dict(WALKER)
-                        us.update({'recv.0': 1502, 'write.0': 80, 'new_packet.0': n + 2, 'harness.0': 70,
-                                   'harness.1': 70, 'harness.2': 70, 'vp_talker_build.0': n + 1})
-                        jobs.append(Job(name, src, LIB, incs=['examples'], extra_sources=extra, unwind=70, unwindset=us,
-                                        timeout=1700, backend='cadical', mem_gb=(12 if n == 1 else 24),
-                                        meta={'frames_per_packet': n, 'control_format': 'TSCF' if tscf else 'NTSCF',
-                                              'transport': 'UDP' if udp else 'raw', 'variant': 'FD' if fd else 'classic',
-                                              'lengths_of_leading_frames': list(fixed) or 'n/a',
-                                              'domain': 'all ids incl. EFF/RTR, all data, all FD flags, arbitrary transmit buffer; '
-                                                        'length of the last frame symbolic 0..%d' % (64 if fd else 8)}))
-    # ---- scaled model (guarded hook shrinks the listener's receive buffer; the wire buffer shrinks with it):
-    # ALL frame lengths symbolic, which the 1500-byte buffers do not permit for more than one frame
-    for n in ((2, 3) if tier == 'quick' else (2, 3, 4)):
-        for tscf in (0, 1):
-            for udp in (0, 1):
-                for fd in (0, 1):
-                    size = 28 + n * (16 + (64 if fd else 8))
-                    size = (size + 15) // 16 * 16
-                    if tier == 'quick' and (fd or n > 2):
-                        continue          # quick: classic frames, 2 per packet; the rest needs minutes and > 16 GB
-                    if fd and n > 2:
-                        continue
-                    name = 'c19.tunnel.%s.%s.%s.n%d.scaled%d' % ('tscf' if tscf else 'ntscf', 'udp' if udp else 'raw',
-                                                                'fd' if fd else 'classic', n, size)
-                    if only and not any(o in name for o in only.split(',')):
-                        continue
-                    src, extra = L.c19_tunnel(n, tscf, udp, fd, ())
-                    us = dict(WALKER)
-                    us.update({'recv.0': size + 2, 'write.0': 80, 'new_packet.0': n + 2, 'harness.0': 70, 'harness.1': 70,
-                               'harness.2': 70, 'vp_talker_build.0': n + 1})
-                    jobs.append(Job(name, src, LIB, incs=['examples'], extra_sources=extra, unwind=70, unwindset=us,
-                                    timeout=2400, backend='cadical', mem_gb=(16 if (n == 2 and not fd) else 36),
-                                    defines=['VP_DG_MAX=%d' % size, 'COVESA_OPEN1722_VERIF_MAX_PDU_SIZE=%d' % size],
-                                    meta={'frames_per_packet': n, 'control_format': 'TSCF' if tscf else 'NTSCF',
-                                          'transport': 'UDP' if udp else 'raw', 'variant': 'FD' if fd else 'classic',
-                                          'scaled_buffers': size, 'hook': 'COVESA_OPEN1722_VERIF_MAX_PDU_SIZE',
-                                          'domain': 'ALL frame lengths symbolic, all ids/flags/data'}))
+
+    def mk(name, n, tscf, udp, fd, fixed, size, mem, timeout=1800):
+        if only and not any(o in name for o in only.split(',')):
+            return
+        src, extra = L.c19_tunnel(n, tscf, udp, fd, fixed)
+        us = dict(WALKER)
+        us.update({'recv.0': 1502, 'write.0': 80, 'new_packet.0': n + 2, 'harness.0': 1502, 'harness.1': 1502,
+                   'harness.2': 1502, 'harness.3': 1502, 'harness.4': 1502, 'talker_main.0': 3,
+                   'talker_main.1': n + 2, 'sendto.0': 1502})
+        defs = ['VP_DG_MAX=%d' % size, 'COVESA_OPEN1722_VERIF_MAX_PDU_SIZE=%d' % size] if size else []
+        jobs.append(Job(name, src, LIB, incs=['examples'], extra_sources=extra, unwind=70, unwindset=us,
+                        timeout=timeout, backend='cadical', mem_gb=mem, defines=defs,
+                        meta={'frames_per_packet': n, 'control_format': 'TSCF' if tscf else 'NTSCF',
+                              'transport': 'UDP' if udp else 'raw', 'variant': 'FD' if fd else 'classic',
+                              'buffers': ('scaled to %d bytes via the guarded hook' % size) if size else 'real size (1500 bytes)',
+                              'lengths_of_leading_frames': list(fixed) or 'symbolic',
+                              'domain': 'all ids incl. EFF/RTR, all data, all FD flags; last frame length symbolic 0..%d' % (64 if fd else 8)}))
+
+    for tscf in (0, 1):
+        for udp in (0, 1):
+            for fd in (0, 1):
+                tag = '%s.%s.%s' % ('tscf' if tscf else 'ntscf', 'udp' if udp else 'raw', 'fd' if fd else 'classic')
+                fmax = 64 if fd else 8
+
+                def size_for(n):
+                    return (28 + n * (16 + fmax + 3) + 15) // 16 * 16
+                # 1 frame per packet, everything symbolic
+                mk('c19.tunnel.%s.n1.scaled%d' % (tag, size_for(1)), 1, tscf, udp, fd, (), size_for(1), 12)
+                # 2 frames per packet
+                if not fd:
+                    mk('c19.tunnel.%s.n2.scaled%d' % (tag, size_for(2)), 2, tscf, udp, fd, (), size_for(2), 12)
+                else:
+                    for ln in ([5] if tier == 'quick' else [0, 1, 5, 8, 12, 33, 63, 64]):
+                        mk('c19.tunnel.%s.n2.len%d.scaled%d' % (tag, ln, size_for(2)), 2, tscf, udp, fd, (ln,), size_for(2), 12)
+                if tier == 'thorough':
+                    if not fd:
+                        for a, b2 in itertools.product((0, 3, 8), repeat=2):
+                            mk('c19.tunnel.%s.n3.len%d-%d.scaled%d' % (tag, a, b2, size_for(3)), 3, tscf, udp, fd, (a, b2), size_for(3), 16)
+                    # real buffer sizes
+                    mk('c19.tunnel.%s.n1.real' % tag, 1, tscf, udp, fd, (), 0, 30, 3000)
+                    mk('c19.tunnel.%s.n2.len%d.real' % (tag, 5 if fd else 3), 2, tscf, udp, fd, (5 if fd else 3,), 0, 36, 3000)
     return jobs
 
 
@@ -78,11 +64,11 @@ def run(tier, only=None):
     chk.assumptions = STD_ASSUME + [
         'valid input = what SocketCAN delivers: no error frames, 11-bit identifiers unless EFF is set, length within '
         'the variant (8 / 64), FD flags within BRS|ESI',
-        'the talker side is the body of acf-can-talker.c\'s sending loop (UDP header, init_cf_pdu, n x prepare_acf_packet, '
-        'update_cf_length) re-stated in the wrapper around the unmodified source; the listener side is new_packet()',
+        'the talker side is the REAL main() of acf-can-talker.c: read() hands it the symbolic CAN frames, sendto() captures the '
+        'packet and ends the endless loop; the listener side is new_packet(); the transmit buffer is the talker\'s own local array',
         'clock fixed (the message timestamp does not reach the CAN frame); modes concrete per query',
-        'frames per packet: 1 (all lengths symbolic) and 2 (thorough: 3) with the lengths of all but the last frame enumerated concretely (symbolic offsets into the 1500-byte buffers exhaust memory: measured 40 GB); more frames add no new code path',
-        'scaled runs: the guarded hook COVESA_OPEN1722_VERIF_MAX_PDU_SIZE shrinks the listener receive buffer (and the wire buffer with it) to just fit n maximal frames; then ALL frame lengths are symbolic for 2 and 3 (thorough 4) frames per packet',
+        'frames per packet: 1 (everything symbolic), 2 classic frames with both lengths symbolic, 2 FD frames / 3 classic frames with the lengths of the leading frames enumerated concretely (nested symbolic offsets exhaust memory: measured 40 GB); more frames add no new code path',
+        'quick tier: buffers scaled with the guarded hook COVESA_OPEN1722_VERIF_MAX_PDU_SIZE (talker transmit buffer, listener receive buffer, wire) to just fit n maximal frames; thorough adds the real 1500-byte buffers',
         'FDF: the CAN FD variant is a property of the tunnel configuration (--fd on both sides), CANFD_FDF in '
         'canfd_frame.flags is ignored by the kernel on write; compared flags are BRS and ESI']
     return chk.finish(
